@@ -4,6 +4,7 @@ import (
 	"bytes"
 	"fmt"
 	"io"
+	"os"
 	"runtime"
 	"runtime/debug"
 	"sort"
@@ -41,10 +42,11 @@ const (
 	opEditOwn
 	opDeserializeDamaged
 	opParseInvalid
+	opRefillClone
 	opKinds
 )
 
-var concOpNames = [...]string{"parse-small", "parse-large", "parseND", "traverse", "clone+edit", "serialize", "deserialize", "stream", "edit-in-place", "deserialize-damaged", "parse-invalid"}
+var concOpNames = [...]string{"parse-small", "parse-large", "parseND", "traverse", "clone+edit", "serialize", "deserialize", "stream", "edit-in-place", "deserialize-damaged", "parse-invalid", "refill-clone-refill"}
 
 // concWorker is the per-goroutine state; nothing in it is shared with other workers.
 type concWorker struct {
@@ -53,6 +55,7 @@ type concWorker struct {
 	obj   *simObj
 	ser   *simdjson.Serializer
 	blob  *simBlob
+	held  *simObj              // a clone this worker keeps while it goes on using (and refilling) the source
 	dst   *simdjson.ParsedJson // destination a failed Deserialize of this worker left behind: the caller owns it again
 	digs  []uint64             // result digest per op
 	run   *Run                 // worker-local oracle context
@@ -62,7 +65,7 @@ type concWorker struct {
 func drawProgram(c *Chooser, n int) []concOp {
 	ops := make([]concOp, n)
 	for i := range ops {
-		k := c.Pick("cop", 4, 2, 1, 3, 3, 6, 5, 1, 4, 2, 2)
+		k := c.Pick("cop", 4, 2, 1, 3, 3, 6, 5, 1, 4, 2, 2, 2)
 		ops[i] = concOp{kind: k, seed: c.U64("opseed"), mode: c.Intn("cmode", 4)}
 	}
 	// make sure there is something to work on first
@@ -180,10 +183,12 @@ func (w *concWorker) step(i int) uint64 {
 			}
 		}
 		readBack(r, co, bInto|bAdv, what+": clone", nil)
+		w.held = co
 		readBack(r, w.obj, bInto, what+": original after editing the clone", nil)
 		f.u64(tapeDigest(cl))
 		if c.Intn("keepclone", 2) == 1 {
 			w.obj = co
+			w.held = nil // the clone is the worker's working object now (and may be refilled): nothing is held
 		}
 	case opEditOwn:
 		if w.obj == nil || !w.obj.readable() || len(w.obj.pj.Tape) > 20000 {
@@ -217,7 +222,7 @@ func (w *concWorker) step(i int) uint64 {
 		var out *simdjson.ParsedJson
 		var derr error
 		var dst *simdjson.ParsedJson
-		if w.obj != nil && w.obj.pj != nil && c.Intn("dst", 3) == 0 {
+		if w.obj != nil && w.obj.pj != nil && (c.Intn("dst", 3) == 0 || (w.held != nil && c.Intn("dstheld", 2) == 0)) {
 			dst = w.obj.pj
 			w.obj = nil
 		}
@@ -234,7 +239,67 @@ func (w *concWorker) step(i int) uint64 {
 		}
 		w.obj = &simObj{pj: out, model: cloneRoots(w.blob.model), nd: w.blob.nd, copy: true, origin: what}
 		readBack(r, w.obj, bInto|bAdv, what, nil)
+		if w.held != nil && !r.failed() {
+			// the clone taken earlier is still what it was, whatever its source has been refilled with since
+			readBack(r, w.held, bInto, what+": clone kept from an earlier operation", nil)
+		}
 		f.u64(tapeDigest(out))
+	case opRefillClone:
+		// Deserialize into the worker's own object, clone it, Deserialize another document into the source: the clone
+		// taken in between keeps what it had
+		if w.obj == nil || w.obj.pj == nil || w.blob == nil {
+			return f.h
+		}
+		a := w.obj.pj
+		w.obj = nil
+		var out, b, out2 *simdjson.ParsedJson
+		var derr error
+		if err := safely(func() error { out, derr = w.ser.Deserialize(w.blob.b, a); return nil }); err != nil {
+			walkerFail(r, "panic", what, err)
+			return 0
+		}
+		if derr != nil {
+			r.violate("solo-equal", "deserialize-failed:"+msgClass(derr.Error()), fmt.Sprintf("%s: Deserialize of this worker's own blob into its own object failed: %v", what, derr))
+			return 0
+		}
+		if err := safely(func() error { b = out.Clone(nil); return nil }); err != nil {
+			walkerFail(r, "panic", what, err)
+			return 0
+		}
+		bo := &simObj{pj: b, model: cloneRoots(w.blob.model), nd: w.blob.nd, copy: true, origin: what + " clone"}
+		readBack(r, bo, bInto, what+": clone of the refilled object", nil)
+		if r.failed() {
+			return 0
+		}
+		dy := GenDoc(c, DocSpec{Family: FamMixed, Target: 20 + c.Intn("sz", 400), WS: 0, MaxDepth: 4, StrMax: 40})
+		ry := RefParse(dy.B)
+		if !ry.OK || ry.Ambiguous {
+			return f.h
+		}
+		var blobY []byte
+		if err := safely(func() error {
+			pjY, e := simdjson.Parse(dy.B, nil)
+			if e != nil {
+				return e
+			}
+			blobY = append([]byte(nil), w.ser.Serialize(nil, *pjY)...)
+			out2, derr = w.ser.Deserialize(blobY, out)
+			return nil
+		}); err != nil {
+			walkerFail(r, "panic", what, err)
+			return 0
+		}
+		if derr != nil {
+			r.violate("solo-equal", "deserialize-failed:"+msgClass(derr.Error()), fmt.Sprintf("%s: second Deserialize into the worker's own object failed: %v", what, derr))
+			return 0
+		}
+		w.obj = &simObj{pj: out2, model: ry.Roots, copy: true, origin: what}
+		readBack(r, w.obj, bInto, what+": source after the second refill", nil)
+		if !r.failed() {
+			readBack(r, bo, bInto|bAdv, what+": clone after its source was refilled with another document", nil)
+		}
+		w.held = bo
+		f.u64(tapeDigest(out2))
 	case opParseInvalid:
 		// an invalid document, possibly with this worker's own object as reuse: the call fails; nobody else may notice
 		d := GenDoc(c, DocSpec{Family: FamMixed, Target: 20 + c.Intn("sz", 600), WS: c.Pick("ws", 4, 2, 1), Record: true, MaxDepth: 4, StrMax: 60})
@@ -446,6 +511,14 @@ func soloDigests(r *Run, progs [][]concOp) ([][]uint64, bool) {
 	for _, w := range ws {
 		if len(w.run.Res.Violations) > 0 {
 			// a program that fails alone is not a concurrency matter; other checks own it
+			v := w.run.Res.Violations[0]
+			r.stat("solo_failed:"+v.Sig, 1)
+			if os.Getenv("VERIF_DEBUG_SOLO") != "" {
+				fmt.Fprintln(os.Stderr, "SOLO-FAILURE", v.Detail)
+			}
+			if _, ok := r.Res.Sample["solo_failure"]; !ok {
+				r.Res.Sample["solo_failure"] = v.Detail
+			}
 			return nil, false
 		}
 	}
